@@ -49,8 +49,9 @@ def null_write_probe(m, req, resp, before, after):
     if req['op'] not in ('put_allocations', 'post_allocations', 'reshaper',
                          'delete_allocations'):
         return
+    # (the probe is a PUT, which only takes canonically spelled UUIDs)
     cands = [c for c in (req.get('consumers') or [])
-             if c not in after.consumers and
+             if c in gen.CONS and c not in after.consumers and
              (c in before.consumers or not resp.ok)]
     if not cands:
         return
